@@ -239,7 +239,7 @@ class CoroStart(Awaitable[T_co]):
         try:
             return (
                 self.context.run(self.coro.send, None)
-                if self.context
+                if self.context is not None
                 else self.coro.send(None)
             ), None
         except BaseException as exception:
@@ -297,16 +297,16 @@ class CoroStart(Awaitable[T_co]):
                 if thrown is None:
                     out_value = (
                         self.context.run(self.coro.send, in_value)
-                        if self.context
+                        if self.context is not None
                         else self.coro.send(in_value)
                     )
                 elif isinstance(thrown, GeneratorExit):
-                    self.coro.close()
+                    self._close()
                     raise thrown
                 else:
                     out_value = (
                         self.context.run(self.coro.throw, thrown)  # type: ignore
-                        if self.context
+                        if self.context is not None
                         else self.coro.throw(thrown)
                     )
             except StopIteration as stop:
@@ -332,7 +332,7 @@ class CoroStart(Awaitable[T_co]):
         try:
             self.start_result = (
                 self.context.run(self.coro.throw, type(value), value)
-                if self.context
+                if self.context is not None
                 else self.coro.throw(type(value), value)
             ), None
         except BaseException as exception:
@@ -359,7 +359,11 @@ class CoroStart(Awaitable[T_co]):
         value = exc if isinstance(exc, BaseException) else exc()
         for i in range(tries):
             try:
-                out_value = self.coro.throw(type(value), value)
+                out_value = (
+                    self.context.run(self.coro.throw, type(value), value)
+                    if self.context is not None
+                    else self.coro.throw(type(value), value)
+                )
             except StopIteration as err:
                 return cast(T_co, err.value)
             # the coroutine ignored the exception and suspended again.  What it
@@ -373,7 +377,15 @@ class CoroStart(Awaitable[T_co]):
         Close the coroutine.  It must immediately exit.
         """
         self.start_result = None
-        self.coro.close()
+        self._close()
+
+    def _close(self) -> None:
+        # cleanup code of the coroutine must run in its own context, too.
+        # Note that an empty Context is falsy: test for None.
+        if self.context is not None:
+            self.context.run(self.coro.close)
+        else:
+            self.coro.close()
 
     async def aclose(self) -> None:
         """
